@@ -112,40 +112,71 @@ def _sig(rb):
     return (rb['kind'], rb['argc'], tuple(l['ty'] for l in rb['locals'][1:rb['argc'] + 1]), rb['ret'], rb.get('self_ty'))
 
 
-def reconcile_renames(raw_bodies, known):
-    """A known function that is gone and exactly one unknown function with the same signature that either kept the name (moved to another
-    impl block / module) or kept the path (renamed in place): the unknown function IS the known one.  Its new path is rewritten to the
-    known path in every body (ids, closure ids, callee paths), so that rules anchored on the name and callee patterns still apply.
+def load_signatures(verif):
+    p = os.path.join(verif, 'tables', 'known_functions.json')
+    if not os.path.exists(p):
+        return {}
+    return json.load(open(p)).get('signatures', {})
+
+
+def reconcile_renames(raw_bodies, known, sigs=None):
+    """A known function that is gone and an unknown function that is recognisably the same one - renamed in place, moved to another impl
+    block / module, possibly with a changed signature: the new path is rewritten to the known path in every body (ids, closure ids,
+    callee paths), so that rules anchored on the name and callee patterns still apply.  Recognition: candidates keep the name or the
+    path prefix; among them the one whose set of callees (with closures) is most similar to the recorded set of the vanished function
+    (Jaccard >= 0.5, unique maximum, mutual best match); a single candidate with the same name (moved) is accepted as such.
     Returns {new id: known id}."""
     if known is None:
         return {}
+    sigs = sigs or {}
     present = {rb['id'] for rb in raw_bodies if rb['kind'] != 'Closure'}
     vanished = sorted(known - present)
     new = sorted(present - known)
     if not vanished or not new:
         return {}
-    by_id = {rb['id']: rb for rb in raw_bodies}
 
     def name(i):
         return i.rsplit('::', 1)[-1]
 
     def path(i):
         return i.rsplit('::', 1)[0]
-    cand = {}
-    for v in vanished:
-        cs = [n for n in new if (name(n) == name(v) or path(n) == path(v))]
-        cand[v] = cs
-    # the signature of a vanished function is not in the facts any more: require a unique candidate by name-or-path, and that this
-    # candidate is not a candidate of another vanished function with equal standing
+    # callee sets of the new functions (with their closures); calls to other new/vanished functions are compared by name only
+    def norm(c):
+        return c
+    callees = {}
+    for rb in raw_bodies:
+        base = rb['id'].split('::{closure#')[0]
+        if base in new:
+            cs = callees.setdefault(base, set())
+            for blk in rb['blocks']:
+                t = blk['term']
+                if t['k'] == 'call' and isinstance(t['f'], dict) and t['f'].get('fn'):
+                    cs.add(t['f'].get('res') or t['f']['fn'])
+    ren_names = set(vanished) | set(new)
+
+    def sim(v, n):
+        a = {c for c in sigs.get(v, {}).get('callees', []) if c not in ren_names}
+        b = {c for c in callees.get(n, set()) if c not in ren_names}
+        if not a and not b:
+            return 1.0 if name(v) == name(n) else 0.5
+        return len(a & b) / float(len(a | b))
+    cand = {v: [n for n in new if name(n) == name(v) or path(n) == path(v)] for v in vanished}
+    score = {(v, n): sim(v, n) for v in vanished for n in cand[v]}
     mapping = {}
-    used = set()
     for v in vanished:
-        cs = [n for n in cand[v] if n not in used]
-        same_name = [n for n in cs if name(n) == name(v)]
-        pick = same_name if len(same_name) == 1 else (cs if len(cs) == 1 else [])
-        if len(pick) == 1 and sum(1 for v2 in vanished if pick[0] in cand[v2]) == 1:
-            mapping[pick[0]] = v
-            used.add(pick[0])
+        cs = sorted(cand[v], key=lambda n: -score[(v, n)])
+        if not cs:
+            continue
+        best = cs[0]
+        if score[(v, best)] < 0.5 and not (len(cs) == 1 and name(best) == name(v)):
+            continue
+        if len(cs) > 1 and score[(v, cs[1])] >= score[(v, best)] - 0.05:
+            continue        # no clear winner
+        # mutual: v is also the best vanished function for `best`
+        rivals = [v2 for v2 in vanished if v2 != v and best in cand[v2] and score[(v2, best)] >= score[(v, best)] - 0.05]
+        if rivals:
+            continue
+        mapping[best] = v
     if not mapping:
         return {}
 
